@@ -627,16 +627,18 @@ fn vis_of(k: usize, idx: usize) -> String {
 /// settings of pair `idx`: the first pairs walk through every value of every setting (so that the quick
 /// tier's 6 pairs cover all yacc kinds, recoverers, formats, editions and visibilities), later ones are random
 fn settings_for(rng: &mut Rng, idx: usize) -> Settings {
-    if idx < 6 {
+    if idx < 8 {
+        // every yacc kind with recovery off AND on (the generated `parse` has one arm per kind, each of
+        // which must pass the recoverer on), all formats, editions and visibilities
         Settings {
-            yk: [YKS[0], YKS[1], YKS[2], YKS[3], YKS[0], YKS[0]][idx],
-            rec: ["cpctplus", "none", "cpctplus", "default", "none", "cpctplus"][idx],
-            ser: ["fixed", "var", "default", "fixed", "var", "fixed"][idx],
-            ed: ["2021", "2018", "2015", "2015", "2018", "2021"][idx],
+            yk: YKS[idx % 4],
+            rec: ["none", "none", "none", "none", "cpctplus", "cpctplus", "default", "cpctplus"][idx],
+            ser: ["fixed", "var", "default", "fixed", "var", "fixed", "var", "default"][idx],
+            ed: ["2021", "2018", "2015", "2015", "2018", "2021", "2021", "2018"][idx],
             vis: vis_of(idx, idx),
-            led: ["2015", "2018", "2021", "2021", "2015", "2018"][idx],
+            led: ["2015", "2018", "2021", "2021", "2015", "2018", "2015", "2021"][idx],
             lvis: vis_of(idx + 1, idx),
-            param: idx == 4,
+            param: idx == 4 || idx == 3,
         }
     } else {
         Settings {
@@ -887,8 +889,37 @@ fn candidate(seed: u64, idx: usize, attempt: u64, thorough: bool) -> Option<Pair
         let st = settings_for(&mut rng, idx);
         let cfg = GenCfg { max_rules: 4, max_toks: 5, max_prods: 3, max_len: 4, precs: false };
         let mut g = grammar::random_grammar(&mut rng, &cfg);
-        if rng.chance(1, 3) {
+        // every 8th pair is the expression grammar `E: E t0 T | T; T: T t1 F | F; F: t2 E t3 | t4` with
+        // %avoid_insert t1 t4 (an operator and the operand): errors with several equally cheap repairs, some of which insert
+        // the avoided token, are what %avoid_insert exists for
+        let fixed = idx % 8 == 5;
+        if fixed {
+            use grammar::AProd;
+            let p = |syms: Vec<S>| AProd { syms, prec: None };
+            g = AGrammar {
+                nrules: 3,
+                ntoks: 5,
+                rules: vec![
+                    vec![p(vec![S::R(0), S::T(0), S::R(1)]), p(vec![S::R(1)])],
+                    vec![p(vec![S::R(1), S::T(1), S::R(2)]), p(vec![S::R(2)])],
+                    vec![p(vec![S::T(2), S::R(0), S::T(3)]), p(vec![S::T(4)])],
+                ],
+                precs: vec![],
+                expect: None,
+                expectrr: None,
+                avoid_insert: vec![1, 4],
+            };
+        }
+        if !fixed && rng.chance(2, 3) {
+            // %avoid_insert: it lives in the grammar object only, so the generated parser sees it solely
+            // through the bytes it embeds; it changes which repair is applied when repairs tie
             g.avoid_insert = vec![rng.below(g.ntoks)];
+            if g.ntoks > 2 && rng.chance(1, 2) {
+                let t = rng.below(g.ntoks);
+                if !g.avoid_insert.contains(&t) {
+                    g.avoid_insert.push(t);
+                }
+            }
         }
         let tags: Vec<Vec<String>> = g.rules.iter().map(|r| r.iter().map(|_| tag_text(&mut rng)).collect()).collect();
         let y = render_yacc(&g, st.yk, st.param, &tags, &mut rng);
@@ -913,6 +944,24 @@ fn candidate(seed: u64, idx: usize, attempt: u64, thorough: bool) -> Option<Pair
         }
         let ninputs = if thorough { 24 } else { 14 };
         let mut inputs: Vec<String> = vec![String::new()];
+        if fixed {
+            // an operand missing at every kind of position (next to each operator and bracket, at both ends)
+            let mut ws: Vec<Vec<usize>> = vec![vec![4, 0, 1, 4], vec![2, 0, 4, 3], vec![4, 0, 0, 4], vec![4, 1, 0, 4], vec![2, 4, 0, 3], vec![4, 4], vec![2, 3]];
+            for a in [0usize, 1] {
+                for b in [0usize, 1] {
+                    ws.push(vec![4, a, b, 4]);
+                    ws.push(vec![a, 4, b, 4]);
+                    ws.push(vec![4, a, 4, b]);
+                    ws.push(vec![2, 4, a, 3, b, 4]);
+                    ws.push(vec![2, a, 4, 3, b]);
+                }
+            }
+            ws.sort();
+            ws.dedup();
+            for toks in ws {
+                inputs.push(render_input(&toks, variant, comments, &mut rng));
+            }
+        }
         while inputs.len() < ninputs {
             let mut toks = match sentence(&g, &mut rng) {
                 Some(t) => t,
@@ -922,7 +971,9 @@ fn candidate(seed: u64, idx: usize, attempt: u64, thorough: bool) -> Option<Pair
             // 0: a sentence; 1: a sentence with one token deleted; 2: 1–2 token edits; 3: random tokens or a lexing error
             if k == 1 && !toks.is_empty() {
                 // one token missing: recovery has to insert it, so actions see `Err` lexemes
-                let i = rng.below(toks.len());
+                // preferably an %avoid_insert token, so that re-inserting it competes with other repairs
+                let av: Vec<usize> = (0..toks.len()).filter(|i| g.avoid_insert.contains(&toks[*i])).collect();
+                let i = if !av.is_empty() && rng.chance(2, 3) { av[rng.below(av.len())] } else { rng.below(toks.len()) };
                 toks.remove(i);
             } else if k == 1 || k == 2 {
                 for _ in 0..rng.range(1, 2) {
@@ -1220,6 +1271,7 @@ fn split_blocks(txt: &str) -> BTreeMap<(usize, usize), Vec<String>> {
 /// repair sequence; otherwise header, lexemes and the errors up to and including the first such error
 /// (its position and its repair SET are determined; which sequence is applied, hence the value and
 /// everything after, is not). Second component: was anything cut.
+#[allow(dead_code)]
 fn determined_part(block: &[String]) -> (Vec<String>, bool) {
     let mut v = Vec::new();
     let mut val = None;
@@ -1283,12 +1335,6 @@ fn run_tv(a: &Args, out: &mut Out, which: &[usize]) {
                                 "ok inconclusive (a parse took > 200 ms: the recovery time budget may differ)".to_string()
                             } else if want == got {
                                 "ok".to_string()
-                            } else if determined_part(want).1 && determined_part(want).0 == determined_part(got).0 {
-                                // grmtools applies the FIRST of several equal-cost repair sequences and their
-                                // order differs from process to process (also between two runs of the run-time
-                                // pipeline alone): value and later errors are then not a function of the input
-                                out.count("tv.compared_up_to_first_error_with_several_repairs");
-                                "ok (lexemes, errors and repair sets equal up to the first error that has several repair sequences; which one is applied is not determined by the sources)".to_string()
                             } else {
                                 let k = want.iter().zip(got.iter()).position(|(x, y)| x != y).unwrap_or(want.len().min(got.len()));
                                 format!(
@@ -1417,7 +1463,7 @@ pub fn run(a: &Args) {
     }
     let _ = std::fs::remove_dir_all(&ddir);
     // translation validation
-    let k = if a.thorough { 40 } else { 6 };
+    let k = if a.thorough { 40 } else { 8 };
     let which: Vec<usize> = (0..k).collect();
     run_tv(a, &mut out, &which);
     out.finish(&a.out);
